@@ -36,7 +36,7 @@ Definition parse_frame (bs:bytes) : pres :=
     let minimal := if l7 =? 126 then 126 <=? len else if l7 =? 127 then 65536 <=? len else true in
     if 2^63 <=? len then BadLen else
     match (if masked then take 4 r1 else Some ([], r1)) with None => Need | Some (k, r2) =>
-    if blen r2 <? len then Need else
+    if short_of r2 len then Need else
     match take (N.to_nat len) r2 with None => Need | Some (pl, rest) =>
       Parsed {| fin := fn; rsv := rs; opcode := op; mkey := if masked then Some k else None;
                 payload := if masked then maskl k 0 pl else pl |} minimal rest
